@@ -369,7 +369,20 @@ class MegacomplexRules(Contract):
     def call(self, S, case, inp):
         from glotaran.model.dataset_model import get_megacomplex_issues
 
-        return {"issues": get_megacomplex_issues(inp["labels"], inp["model"], False), "none": get_megacomplex_issues(None, inp["model"], True)}
+        from glotaran.model.dataset_model import validate_global_megacomplexes, validate_megacomplexes
+
+        out = {"issues": get_megacomplex_issues(inp["labels"], inp["model"], False), "none": get_megacomplex_issues(None, inp["model"], True)}
+        # the validators of the two lists of a dataset: each list is judged on its own, whatever the other list holds
+        labels = inp["labels"]
+        for other_name, other in (("same", list(labels)), ("empty", []), ("first", labels[:1]), ("stranger", ["zz"])):
+            class DM:
+                megacomplex = other
+                global_megacomplex = other
+
+            out[f"global|{other_name}"] = validate_global_megacomplexes(list(labels), DM(), inp["model"], None)
+            out[f"model|{other_name}"] = validate_megacomplexes(list(labels), DM(), inp["model"], None)
+        out["global|none_value"] = validate_global_megacomplexes(None, DM(), inp["model"], None)
+        return out
 
     def observe(self, out):
         return out if isinstance(out, Raised) else None
@@ -389,6 +402,11 @@ class MegacomplexRules(Contract):
         yield "exclusive_issue_iff_combined_with_others", got_excl == want_excl
         yield "unique_issue_iff_used_more_than_once", got_uniq == want_uniq
         yield "nothing_else_reported", len(out["issues"]) == len(got_excl) + len(got_uniq) and out["none"] == []
+
+        def sig(issues):
+            return sorted((type(i).__name__, i._label) for i in issues)
+
+        yield "each_list_of_a_dataset_is_judged_on_its_own", L.and_(*[sig(v) == sig(out["issues"]) for k, v in out.items() if "|" in k and k != "global|none_value"]) and out["global|none_value"] == []
 
 
 _RULE_CLASSES = None
